@@ -493,6 +493,17 @@ func EncryptFragment(f *Fragment, key, iv []byte, ipd *InitProtectData) error {
 		if err != nil {
 			return fmt.Errorf("get protect ranges: %w", err)
 		}
+		if nrSubSamples := len(subsamplePatterns); nrSubSamples > 0 {
+			// saiz sample_info_size is 8 bits: per-sample IV (cenc only) + subsample_count(2) + 6 bytes per sub-sample
+			sampleInfoSize := 2 + 6*nrSubSamples
+			if ipd.Scheme == "cenc" {
+				sampleInfoSize += len(iv)
+			}
+			if sampleInfoSize > 255 {
+				return fmt.Errorf("sample with %d sub-samples needs %d bytes of sample auxiliary information, max is 255",
+					nrSubSamples, sampleInfoSize)
+			}
+		}
 		switch ipd.Scheme {
 		case "cenc":
 			err = CryptSampleCenc(sample, key, iv, subsamplePatterns)
